@@ -54,6 +54,21 @@ def main(argv):
                     os.remove(os.path.join(rdir, fn))
                 except OSError:
                     pass
+    # a listed finding may pin the deviation it stands for ("only_if_unsat": obligation pattern that states the known wrong
+    # behaviour exactly): it suppresses its violation only while that pinned obligation is proved -- a different deviation at
+    # the same site is reported
+    import fnmatch as _fn
+
+    known_all = known
+    known = []
+    for k in known_all:
+        pin = k.get("only_if_unsat")
+        if k.get("property") == prop and k.get("status") == "open" and pin:
+            hits = [r for r in records if _fn.fnmatchcase(r["id"], pin)]
+            if not hits or any(r["status"] not in ("unsat", "ok") for r in hits):
+                print(f"NOTE: listed finding not applied (its pinned obligation {pin!r} is {'missing' if not hits else 'not proved'}): {k.get('what', '')[:120]}")
+                continue
+        known.append(k)
     reproduced_kinds = {}
     known_more = 0
     tried_kinds = {}
@@ -116,8 +131,10 @@ def main(argv):
         inconclusive.append((r, f"{st}: {str(r.get('detail',''))[-600:]}"))
     # ---- regression replays of recorded findings
     reg = 0
-    for k in known:
+    for k in known_all:
         if k.get("property") != prop or not k.get("replay"):
+            continue
+        if k.get("status") == "open" and not any(k is k2 for k2 in known):
             continue
         path = core.write_replay(prop, "regress-" + k.get("obligation", "x").rstrip("*"), k["replay"]["kind"], k["replay"]["inputs"], {"from_known_findings": True})
         rep, detail = core.run_replay(path)
